@@ -256,9 +256,6 @@ func genCases(rnd *rand.Rand, thorough bool) []mon.CaseSpec {
 						continue
 					}
 					s := spec{Kind: "be", Proto: o.proto, Obj: o.obj, Op: "send", Peer: pr, NPipes: np(), Q: pickQ(2), State: st, WithDL: rnd.Intn(3) == 0}
-					if s.WithDL {
-						s.DUs = 100000
-					}
 					if pr == "slow" {
 						s.Tr = "inproc"
 						s.NPipes = 1
@@ -266,9 +263,22 @@ func genCases(rnd *rand.Rand, thorough bool) []mon.CaseSpec {
 					if fam == "req" && pr == "none" {
 						s.State = "full"
 					}
+					if s.State == "full" && !s.WithDL {
+						// a full queue with a send deadline configured as well: the deadline must not turn best effort into a wait
+						s2 := s
+						s2.WithDL, s2.DUs = true, 150000
+						add(s2)
+					}
+					if s.WithDL {
+						s.DUs = 100000
+					}
 					add(s)
 				}
 			}
+		}
+		// ---- a completed Send's deadline must not end the Recv that follows
+		for _, o := range staleObjs() {
+			add(spec{Kind: "stale", Proto: o.proto, Obj: o.obj, Op: "send+recv", Peer: "real", Tr: "inproc", DUs: []int64{5000, 20000}[rnd.Intn(2)], NPipes: 1})
 		}
 		// ---- several blocked callers at once (own deadline per context)
 		for _, o := range recvObjs() {
@@ -332,6 +342,8 @@ func runCase(c *mon.Case, sp spec) {
 		runFNPNone(c, sp)
 	case "fnp-leave":
 		runFNPLeave(c, sp)
+	case "stale":
+		runStale(c, sp)
 	default:
 		panic("unknown kind " + sp.Kind)
 	}
